@@ -34,8 +34,8 @@ KW = {"initial": "initial_state_dist", "actions": "actions", "next": "next_state
       "absorbing": "is_absorbing", "state_list": "state_list", "action_list": "action_list"}
 BASE = "INIT Init\nNEXT Next\nCHECK_DEADLOCK FALSE\nINVARIANT Emit\nINVARIANT InstancesWellFormed\n"
 INVS = {
-    "aug": ["AugPreserved", "AugOverridden", "AugMatchesOracle", "AugOrder"],
-    "plan": ["AugPreserved", "AugOverridden", "AugMatchesOracle", "AugOrder", "SubTaskSound", "PlanOracleSound"],
+    "aug": ["AugPreserved", "AugOverridden", "AugMatchesOracle", "AugOrder", "ViewsOfDerived"],
+    "plan": ["AugPreserved", "AugOverridden", "AugMatchesOracle", "AugOrder", "ViewsOfDerived", "SubTaskSound", "PlanOracleSound"],
     "opt": ["OptVerdictSound", "OptFirstTerminal", "OptWithinLimit", "OptReturnExact", "OptStepsFollowModel"],
     "trace": ["OptWithinLimit", "OptReturnExact", "OptStepsFollowModel", "TraceTally"],
 }
@@ -233,6 +233,102 @@ def compare_components(real, d, m, tab, comps=None, support_only=False):
     return bad
 
 
+WARMS = ["none", "arrays", "plan", "both", "both"]
+
+
+def warm_base(mdp, how, tab):
+    """Call history before augment() / the option is built: read the base's array views and reachable set
+    and / or plan on it, so that everything msdm caches per instance is cached on the base."""
+    if how == "none":
+        return
+    from msdm.algorithms import ValueIteration
+    with warnings.catch_warnings():
+        warnings.simplefilter("ignore")
+        if how in ("arrays", "both"):
+            reads = [lambda: mdp.reachable_states()]
+            if tab:
+                reads += [lambda: mdp.state_list, lambda: mdp.action_list, lambda: mdp.transition_matrix,
+                          lambda: mdp.reward_matrix, lambda: mdp.action_matrix, lambda: mdp.absorbing_state_vec,
+                          lambda: mdp.state_action_reward_matrix, lambda: mdp.initial_state_vec,
+                          lambda: mdp._unable_to_reach_absorbing]
+            for f in reads:
+                try:
+                    f()
+                except Exception:                                    # noqa: BLE001 - only the history matters
+                    pass
+        if how in ("plan", "both") and tab:
+            try:
+                ValueIteration(max_iterations=60).plan_on(mdp)
+            except Exception:                                        # noqa: BLE001
+                pass
+
+
+def project_views(dm, b, arrays):
+    """Array views of an MDP object keyed by abstract indices (reachable set always, arrays when asked)."""
+    out = {}
+
+    def guard(name, fn):
+        try:
+            out[name] = fn()
+        except Exception as e:                                       # noqa: BLE001
+            out[name] = {"error": f"{type(e).__name__}: {e}"[:200]}
+    guard("reach", lambda: sorted(sidx0(b, s) for s in dm.reachable_states()))
+    if arrays:
+        guard("lists", lambda: [[sidx0(b, s) for s in dm.state_list], [aidx0(b, a) for a in dm.action_list]])
+        guard("T", lambda: dm.transition_matrix.tolist())
+        guard("R", lambda: dm.reward_matrix.tolist())
+        guard("absvec", lambda: [bool(x) for x in dm.absorbing_state_vec])
+    return out
+
+
+def compare_views(real, v, m):
+    """real: project_views output; v: views emitted by TLC.  Returns [(view, message)]."""
+    bad = []
+    if not real:
+        return bad
+    for name in real:
+        if isinstance(real[name], dict):
+            bad.append(("raises", f"{name}: {real[name]['error']}"))
+    if bad:
+        return bad
+    exp = sorted(x - 1 for x in v["reach"])
+    if real["reach"] != exp:
+        bad.append(("reachable_states", f"reachable_states() = {real['reach']} but the derived MDP reaches {exp}"))
+    if "T" not in real:
+        return bad
+    sl, al = real["lists"]
+    PD = m["PD"]
+
+    def shape(x):
+        return [len(x), len(x[0]) if x else 0, len(x[0][0]) if x and x[0] else 0]
+    if len(real["absvec"]) != len(sl):
+        bad.append(("absorbing_state_vec", f"absorbing_state_vec has {len(real['absvec'])} entries for a state_list of {len(sl)}"))
+    for name, key in (("transition_matrix", "T"), ("reward_matrix", "R")):
+        if shape(real[key]) != [len(sl), len(al), len(sl)]:
+            bad.append((name, f"{name} has shape {shape(real[key])} for {len(sl)} listed states and {len(al)} listed actions"))
+    if bad:
+        return bad
+    for si, s in enumerate(sl):
+        if bool(v["absvec"][s]) != real["absvec"][si]:
+            bad.append(("absorbing_state_vec", f"absorbing_state_vec[state {s}] = {real['absvec'][si]} expected {bool(v['absvec'][s])}"))
+            break
+    for name, key in (("transition_matrix", "T"), ("reward_matrix", "R")):
+        done = False
+        for si, s in enumerate(sl):
+            for ai, a in enumerate(al):
+                for ti, t in enumerate(sl):
+                    e = F(v[key][s][a][t], PD) if key == "T" else v[key][s][a][t]
+                    if not close(real[key][si][ai][ti], e, 1e-12):
+                        bad.append((name, f"{name}[{s},{a},{t}] = {real[key][si][ai][ti]} but the derived MDP has {float(e)}"))
+                        done = True
+                        break
+                if done:
+                    break
+            if done:
+                break
+    return bad
+
+
 def py_derived(m, ovr):
     """Independent (python) statement of Derived(m, ovr) for the machinery cross-check."""
     ov = m["ov"]
@@ -303,7 +399,7 @@ def make_aug_cases(rng, n, tier):
         if rep["kind"] == "subclass_inst":
             rep["gclass"] = rng.choice([g for g in [(1, 2), (3, 4), (1, 1)] if F(*g) != F(GN, GD)])
         m["ov"] = rand_override(rng, m)
-        cases.append({"m": m, "rep": rep, "ovrs": "all"})
+        cases.append({"m": m, "rep": rep, "ovrs": "all", "warm": rng.choice(WARMS)})
     return cases
 
 
@@ -338,7 +434,8 @@ def aug_prepare(case):
     rng = random.Random(digest(case["m"]) + digest(case["rep"]))
     b, gclass, ginst, tab = make_base(m, case["rep"], rng)
     rec = {k: m[k] for k in MDPF}
-    rec.update(gclass=gclass, ginst=ginst, tab=tab, ov=m["ov"])
+    rec.update(gclass=gclass, ginst=ginst, tab=tab, ov=m["ov"], warm=case.get("warm", "none"))
+    warm_base(b.mdp, case.get("warm", "none"), tab)
     if tab:
         rec["slist"] = [b.sidx(s) + 1 for s in b.mdp.state_list]
         rec["alist"] = [b.aidx(a) + 1 for a in b.mdp.action_list]
@@ -351,13 +448,20 @@ def aug_prepare(case):
     return b, tab, rec
 
 
-def aug_real(b, tab, m, ovr):
+def aug_real(b, tab, m, ovr, d=None):
     from msdm.core.semimdp.option import augment
     try:
         dm = augment(b.mdp, **aug_kwargs(b, m["ov"], ovr))
     except Exception as e:                                           # noqa: BLE001
         return {"error": f"{type(e).__name__}: {e}"[:300]}
-    return project_mdp(dm, b, tab)
+    out = project_mdp(dm, b, tab)
+    # arrays are defined when the derived lists hold every state and action (then every successor can be indexed)
+    full = bool(tab and d is not None and sorted(d["state_list"]) == list(range(1, m["N"] + 1))
+                and sorted(d["action_list"]) == list(range(1, m["K"] + 1)))
+    with warnings.catch_warnings():
+        warnings.simplefilter("ignore")
+        out["views"] = project_views(dm, b, full)
+    return out
 
 
 def discount_signature(site, rec, real):
@@ -380,7 +484,7 @@ def judge_aug(ctx, cases, tamper=None):
                 if r["d"][comp] != val:
                     raise TLCFailure(f"TLA+ Derived and python Derived disagree on case {i} ovr {ovr} component {comp}")
             ctx.count("oracle_crosschecks")
-        real = aug_real(b, tab, c["m"], ovr)
+        real = aug_real(b, tab, c["m"], ovr, r["d"])
         ctx.evaluations += 1
         if tamper:
             tamper(i, ovr, real)
@@ -397,6 +501,15 @@ def judge_aug(ctx, cases, tamper=None):
                 sig = f"C15:augment:{comp}:{'overridden' if comp in ovr else 'not-preserved'}"
             ctx.violation(sig, f"augment(overrides={ovr}) on a {c['rep']['kind']} base: {msg}",
                           {"part": "aug", "case": dict(c, ovrs=[ovr])})
+        vbad = compare_views(real["views"], r["views"], c["m"])
+        for view, msg in vbad:
+            ctx.violation(f"C15:augment:array-view:{view}", f"augment(overrides={ovr}) on a {c['rep']['kind']} base "
+                          f"(call history before augment: {c.get('warm', 'none')}): {msg}",
+                          {"part": "aug", "case": dict(c, ovrs=[ovr])})
+        bad = bad + vbad
+        if r["cachediffers"] and "T" in real["views"]:
+            ctx.nontrivial("aug-history:" + digest(key))
+            ctx.count("aug_derived_views_differ_from_views_cached_on_the_base")
         if not bad:
             ctx.validated += 1
         if 0 < len(ovr) < (7 if tab else 5) and (c["m"]["GN"], c["m"]["GD"]) != (1, 1):
@@ -463,7 +576,7 @@ def make_plan_cases(rng, n, tier):
             rep["gclass"] = rng.choice([g for g in [(1, 2), (3, 4), (1, 1)] if F(*g) != F(f["GN"], f["GD"])])
         if not rep["explicit_list"] and (not gen.ghost_closed(m) or set(inis) - gen.reach(m) or set(sub) - gen.reach(m)):
             rep["explicit_list"] = True
-        cases.append({"m": m, "rep": rep, "o": o})
+        cases.append({"m": m, "rep": rep, "o": o, "warm": rng.choice(WARMS)})
     return cases
 
 
@@ -475,6 +588,7 @@ def plan_real(case):
     b, gclass, ginst, tab = make_base(m, case["rep"], rng)
     subl = [b.slabel[s] for s in o["sub"]]
     out = {"gclass": gclass, "ginst": ginst}
+    warm_base(b.mdp, case.get("warm", "none"), tab)
     try:
         opt = PlanToSubgoalOption(
             mdp=b.mdp, initial_states=[b.slabel[s] for s in o["inis"]],
@@ -483,6 +597,9 @@ def plan_real(case):
             include_mdp_absorbing_states=bool(o["incl"]), name="g", max_steps=50,
             max_nonterminal_pseudoreward=(float("inf") if o["clip"] is None else float(o["clip"])))
         out["sub_task"] = project_mdp(opt.sub_task, b, 1)
+        with warnings.catch_warnings():
+            warnings.simplefilter("ignore")
+            out["views"] = project_views(opt.sub_task, b, True)
     except Exception as e:                                           # noqa: BLE001
         out["sub_task"] = {"error": f"{type(e).__name__}: {e}"[:300]}
         return out
@@ -522,7 +639,7 @@ def judge_plan(ctx, cases, tamper=None):
         rec = {k: m[k] for k in MDPF}
         rec.update(gclass=gclass, ginst=ginst, tab=1, slist=list(range(1, m["N"] + 1)), alist=list(range(1, m["K"] + 1)),
                    sub=[s + 1 for s in o["sub"]], inis=[s + 1 for s in o["inis"]], incl=o["incl"],
-                   clip=[1, 0] if o["clip"] is None else [o["clip"], 1])
+                   clip=[1, 0] if o["clip"] is None else [o["clip"], 1], warm=c.get("warm", "none"))
         batch.append(rec)
     res = tlc(ctx, "plan", "plan", batch, "plan: sub-task machine + exact optimum of the derived instance")
     by = {r["iid"]: r for r in res.records}
@@ -567,6 +684,15 @@ def judge_plan(ctx, cases, tamper=None):
             ctx.violation(sig, f"sub-goal sub-task (subgoals {o['sub']}, clip {o['clip']}, include_mdp_absorbing {o['incl']}) on a "
                                f"{c['rep']['kind']} base: {msg}", rc)
         ok = not bad
+        vbad = compare_views(real.get("views", {}), r["views"], m)
+        for view, msg in vbad:
+            ok = False
+            ctx.violation(f"C15:{site}:array-view:{view}", f"sub-goal sub-task (subgoals {o['sub']}, clip {o['clip']}, "
+                          f"include_mdp_absorbing {o['incl']}) on a {c['rep']['kind']} base (call history before the option "
+                          f"was built: {c.get('warm', 'none')}): {msg}", rc)
+        if r["cachediffers"]:
+            ctx.nontrivial("plan-history:" + digest(c))
+            ctx.count("plan_derived_views_differ_from_views_cached_on_the_base")
         pl = real.get("plan")
         if pl is None:
             continue
@@ -1263,8 +1389,9 @@ SIZES = {"quick": dict(aug=20, plan=200, opt=150, trace=200), "thorough": dict(a
 def run(ctx):
     import msdm.algorithms      # noqa: F401  (slow import, once)
     sz = SIZES[ctx.tier]
-    ctx.rule = ("aug: (base instance x representation x subset of the 7 overridable components), non-trivial = a proper "
-                "non-empty subset on a base with discount < 1; plan: sub-goal option on a discounted base whose clipped "
+    ctx.rule = ("aug: (base instance x representation x call history x subset of the 7 overridable components), non-trivial = a "
+                "proper non-empty subset on a base with discount < 1, or (aug-history / plan-history) a derived MDP whose array "
+                "views differ from the ones cached on the base by the call history; plan: sub-goal option on a discounted base whose clipped "
                 "rewards differ from the base's and whose optimum is not identically 0; opt: TLC behaviour of an option run "
                 "with >= 2 steps replayed by scripted sampling; trace: semi-MDP query whose validated simulations give >= 2 "
                 "distinct outcomes or an outcome of >= 2 steps")
